@@ -141,7 +141,16 @@ def _mol2_text(V):
     I, st = V.I, V.st
     T.use(st)
     m = text_molecule(V)
-    V.witness(lambda ev: {"op": "mol2-roundtrip", "signature": "mol2-roundtrip"})
+    # the atoms' back-references: to this molecule, or (history: two of the atoms were also handed to another non-copying container,
+    # e.g. Promolecule(mol.atoms[1:3])) to an object in which they sit at other positions -- they are still atoms 1 and 2 of THIS molecule
+    shared = V.choose([False, True], "atoms-shared-with-another-container")
+    if shared:
+        other = M.mk_mol(V, "Molecule", 0, (), name="other")
+        ats = m.fields["_atoms"].items
+        other.fields["_atoms"].items.extend([ats[1], ats[2]])
+        for a_ in (ats[1], ats[2]):
+            a_.fields["_parent"] = Obj(I.WeakrefCls, {"ref": other}, tag="weakref")
+    V.witness(lambda ev: {"op": "mol2-roundtrip", "shared": shared, "signature": "mol2-roundtrip" + ("/shared-atoms" if shared else "")})
     V.cover()
     w = V.method(m, "dumps_mol2", [], qual=f"{MOLQ}.dumps_mol2")
     V.ensure("writer/returns-text", z3.BoolVal(w.returned and isinstance(w.value, (T.SStr, str))))
@@ -180,6 +189,33 @@ def _mol2_text(V):
             V.ensure("roundtrip/bond-types", I.and_(*[I.eq(x.fields["btype"], y.fields["btype"]) for x, y in zip(sb, rb)]))
     w2 = V.method(r, "dumps_mol2", [])
     V.ensure("fixed-point/second-write-produces-the-same-text", T.same_text(I, text, w2.value) if w2.returned else z3.BoolVal(False))
+
+
+@P.unit(f"{M.CLS['Structure']}.yield_from_mol2", name="mol2 text of a molecule without atoms reads back as a molecule without atoms",
+        functions=[f"{MOLQ}.dump_mol2", f"{M.CLS['Structure']}.dump_mol2", f"{M.CLS['Structure']}.yield_from_mol2", f"{M.CLS['Structure']}.loads_mol2",
+                   "molli.parsing.mol2:read_mol2"])
+def _mol2_empty(V):
+    I, st = V.I, V.st
+    T.use(st)
+    kind = V.choose(["Molecule", "Structure"], "class")
+    m = M.mk_mol(V, kind, 0, (), name="m")
+    V.witness(lambda ev: {"op": "mol2-empty", "kind": kind, "signature": "mol2-empty"})
+    V.cover()
+    w = V.method(m, "dumps_mol2", [])
+    if not w.returned:
+        return                      # nothing written: nothing to read back
+    cls = V.cls(M.CLS[kind])
+    I.target = f"{M.CLS['Structure']}.loads_mol2"
+    try:
+        r = I.call(I.getattr_(cls, "loads_mol2"), [w.value], {})
+    except PyExc as e:
+        V.dbg = (e.value, e.value.fields)
+        V.ensure("empty/reader-accepts-the-written-text", z3.BoolVal(False))
+        return
+    V.ensure("empty/reader-accepts-the-written-text", z3.BoolVal(True))
+    V.ensure("empty/no-atoms-no-bonds-same-name", I.and_(len(r.fields["_atoms"].items) == 0, len(r.fields["_bonds"].items) == 0,
+                                                          I.eq(r.fields["_name"], m.fields["_name"])))
+    V.ensure("empty/coordinates-are-0x3", z3.BoolVal(tuple(r.fields["_coords"].tail) == (0, 3)))
 
 
 @P.unit(f"{M.CLS['Structure']}.dump_mol2", name="mol2 text of a Structure (no partial charges)",
